@@ -244,6 +244,9 @@ def update_connectivity(
     # setting the dtype explicitly, and adding the _FillValue attribute,
     # xarray will cooperate.
     include_row = ~numpy.ma.getmask(row_indexes)
+    # Entries that refer to dropped elements, such as a neighbouring face
+    # that was not selected, become missing in the new array.
+    column_values = numpy.ma.filled(column_values, fill_value)
     raw_values = numpy.array([
         [
             column_values[item] if item is not numpy.ma.masked else fill_value
